@@ -305,6 +305,36 @@ def c_option_flag(rng, W):
             'probe': doc}
 
 
+def c_package_zoo(rng, W):
+    # macro / environment objects of pre-loaded packages must not carry what
+    # an option of an earlier call did to them (extraction rewrites every
+    # loaded macro in place)
+    w = [W.word() for _ in range(8)]
+    doc = ('\\section{%s}\n'
+           'See \\cite{knuth} and \\parencite[p. 7]{lamport}\\footcite{kx}, %s.\n'
+           '\\href{http://x.org}{%s} \\url{http://y.org} '
+           '\\textcolor{red}{%s} \\colorbox{blue}{%s} \\fcolorbox{red}{blue}{fb}\n'
+           '\\includegraphics[width=3cm]{fig} \\eqref{e} \\substack{a}\n'
+           '\\begin{proof} %s. \\end{proof}\n'
+           '\\foreignlanguage{german}{eins zwei}\n'
+           '\\DeclareMathOperator{\\sn}{sn} $\\sn x$ und\n'
+           '\\begin{tikzpicture} \\draw (0,0); \\end{tikzpicture}\n'
+           '\\begin{lstlisting}\ncode line\n\\end{lstlisting}\n'
+           '%s\\xspace %s.\n' % tuple(w))
+    flag = rng.choice([
+        {'extr': rng.choice(['cite,href', 'section,footcite', 'textcolor',
+                             'parencite,includegraphics', 'foreignlanguage'])},
+        {'nosp': True}, {'seqs': True}, {'unkn': True},
+        {'repl': ['%s & qreplacedz zwei\n' % w[1]]},
+        {'lang': 'de'}, {'lang': 'ru'},
+    ])
+    opts = dict(flag)
+    opts['pack'] = rng.choice(['*', '*', 'biblatex,hyperref,xcolor,babel'])
+    return {'name': 'package_objects:' + sorted(flag)[0], 'pol': doc,
+            'pol_opts': opts, 'probe': doc,
+            'probe_opts': {'pack': opts['pack']}}
+
+
 def c_modparms(rng, W):
     a, b = W.word(), W.word()
     mod = rng.choice([{'ml_continue_thresh': 0}, {'ml_continue_thresh': 7},
@@ -337,7 +367,7 @@ def c_recovery(rng, W):
 
 CARRIERS = [c_newcommand, c_newcommand, c_renewcommand, c_newtheorem, c_package,
             c_package, c_cleveref, c_docclass, c_language, c_language,
-            c_lang_option, c_ienc, c_xspace, c_file_rewritten, c_file_rewritten, c_babel_table, c_babel_table, c_rotation, c_rotation, c_items, c_glossary,
+            c_lang_option, c_ienc, c_xspace, c_package_zoo, c_file_rewritten, c_file_rewritten, c_babel_table, c_babel_table, c_rotation, c_rotation, c_items, c_glossary,
             c_glossary, c_flows, c_unknowns, c_option_flag, c_option_flag,
             c_modparms, c_recovery]
 
